@@ -50,6 +50,8 @@ type muxOp struct {
 	ret         int
 	outcome     string
 	got         string
+	// the node answered (at least once) under another protocol version
+	otherVersion bool
 }
 
 type streamObs struct {
@@ -144,6 +146,24 @@ func runMux(e *Env) {
 		k.Fault("node.answers-nothing")
 	}
 
+	// a node that sheds load: it answers the probes of idle connections with ERROR frames
+	// (probes are not requests of any caller: their answers concern nobody else, and a
+	// connection whose node answers at all stays)
+	if !e.NoFaults && !blackhole && tp.Chance(1, 8) {
+		k.Fault("node.refuses-probes")
+		hbN := 0
+		cl.OptionsReply = func(sc *node.SConn, rec *node.ReqRec) *cqlspec.Response {
+			if !sc.Started {
+				return nil
+			}
+			hbN++
+			code := []int32{cqlspec.ErrOverloaded, cqlspec.ErrServer, cqlspec.ErrBootstrapping}[hbN%3]
+			return &cqlspec.Response{Op: cqlspec.OpError, Error: &cqlspec.ErrorBody{Code: code, Message: fmt.Sprintf("probe refused tok-999-%d", hbN)}}
+		}
+		k.TimeMenu = []time.Duration{time.Second, 10 * time.Millisecond, 100 * time.Millisecond, time.Second, time.Millisecond}
+		k.MaxSteps = 700
+	}
+
 	cfg := BaseConfig(cl, "10.0.0.1")
 	gocql.VerifDisableControlConn(cfg, true)
 	cfg.ProtoVersion = proto
@@ -195,7 +215,7 @@ func runMux(e *Env) {
 		}
 		kind := 0
 		if faultsOn {
-			kind = tp.Weighted([]int{12, 3, 2})
+			kind = tp.Weighted([]int{12, 3, 2, 1})
 		}
 		if blackhole {
 			kind = 2
@@ -213,7 +233,19 @@ func runMux(e *Env) {
 				meta = cqlspec.RowsMeta{NoMetadata: true, ColumnCount: 1}
 			}
 			row := [][]cqlspec.Cell{{{Bytes: cqlspec.EncText(token + "/" + sc.Host.Nonce)}}}
-			cl.Send(sc, rec, &cqlspec.Response{Op: cqlspec.OpResult, Kind: cqlspec.KindRows, Rows: &meta, RowData: row}, node.Hold, "ROWS "+token)
+			r := cl.Send(sc, rec, &cqlspec.Response{Op: cqlspec.OpResult, Kind: cqlspec.KindRows, Rows: &meta, RowData: row}, node.Hold, "ROWS "+token)
+			if kind == 3 {
+				// a well-formed answer on the request's stream whose header names the
+				// neighbouring protocol version (same header layout): the caller is told so,
+				// the connection goes on, the stream id is free again
+				k.Fault("reply.other-protocol-version")
+				r.Frame[0] = 0x80 | byte(map[int]int{4: 3, 3: 4, 2: 1}[int(rq.Header.Version)])
+				mu.Lock()
+				if op := ops[token]; op != nil {
+					op.otherVersion = true
+				}
+				mu.Unlock()
+			}
 		}
 	}
 
@@ -489,6 +521,9 @@ func muxCheckOutcome(k *kernel.Kernel, op *muxOp, err error, got string) {
 		// while a PREPARE for this statement was in flight on it
 	default:
 		if strings.Contains(cls, "unable to read frame body") || strings.Contains(cls, "connection reset") {
+			return
+		}
+		if op.otherVersion && strings.Contains(err.Error(), "unexpected protocol version in response") {
 			return
 		}
 		if op.unbuildable && strings.Contains(err.Error(), "named query values are not supported in batches") {
